@@ -121,7 +121,7 @@ def network_packets(ctx, rng):
 def check_transparency(ctx, rng, fe):
     pk = network_packets(ctx, rng)
     res = {'viol': []}
-    reps = ctx.n(12, 60)
+    reps = ctx.n(12, 2400)
 
     async def main(S):
         A, B = Twin(fe, S), Twin(fe, S)
@@ -190,7 +190,7 @@ REASONS = [0, 50, 100, 150, 255, 256, 65535, 65536, 2**32 - 1, 2**32, 2**64 - 1]
 
 def check_nack(ctx, rng, fe):
     res = {'viol': []}
-    n = ctx.n(600, 6000)
+    n = ctx.n(600, 160000)
 
     async def main(S):
         T = Twin(fe, S)
@@ -238,7 +238,7 @@ def check_nack(ctx, rng, fe):
 
 def check_pit_token(ctx, rng):
     res = {'viol': []}
-    rounds = ctx.n(400, 5000)
+    rounds = ctx.n(400, 120000)
 
     async def main(S):
         face = RecFace()
